@@ -446,6 +446,15 @@ def plant_all(decls, ns, rng):
                     if foreign and js:
                         j = js[0]; s = body[j]
                         out.append(('undefined-var-declared-in-neighbour', 'P0015', mut(i, (k, d[1], vs, body[:j] + [('a', s[1], s[2] + [foreign[0]])] + body[j + 1:]))))
+            # the name of a function declared elsewhere in the unit used as a variable (the name of a function is a variable
+            # inside that function only)
+            for fd in decls:
+                if fd[0] == 'U' and fd[1] != d[1] and fd[1] not in own:
+                    js = [j for j, s in enumerate(body) if s[0] == 'a']
+                    if js:
+                        j = js[0]; s = body[j]
+                        out.append(('undefined-var-named-like-function', 'P0015', mut(i, (k, d[1], vs, body[:j] + [('a', s[1], s[2] + [fd[1]])] + body[j + 1:]))))
+                    break
             # a global variable of a configuration used without a VAR_EXTERNAL declaration
             for cd in decls:
                 if cd[0] == 'C':
